@@ -439,6 +439,29 @@ def generate():
         dz = bool(re.search(r'if\s+self\.ptr\.is_null\(\)\s*\{\s*return\s*&\[\];\s*\}', body))
     out.append(f"def shape_derefNullIsEmpty : Bool := {'true' if dz else 'false'}")
     out.append("")
+    # one-shot server (C08)
+    mo = re.search(r'impl OsIpcOneShotServer \{', unix)
+    if not mo:
+        fail("impl OsIpcOneShotServer not found")
+    osrv = strip_comments(unix[mo.end():find_block(unix, mo.end()) - 1])
+    td = bool(re.search(r'Builder::new\(\)\.tempdir\(\)\?', osrv))
+    out.append(f"def shape_tempdirDefault : Bool := {'true' if td else 'false'}  -- no custom prefix / rand_bytes")
+    i_own = osrv.find('let server = OsIpcOneShotServer {')
+    i_bind = osrv.find('libc::bind(')
+    i_listen = osrv.find('libc::listen(')
+    i_sock = osrv.find('libc::socket(')
+    i_addr = osrv.find('new_sockaddr_un(')
+    out.append(f"def shape_serverOwnsBeforeBind : Bool := {'true' if 0 <= i_addr < i_sock < i_own < i_bind < i_listen else 'false'}")
+    _, _, nsu = find_fn(unix, 'new_sockaddr_un')
+    pc = bool(re.search(r'if\s+libc::strlen\(path\)\s*>=\s*sockaddr\.sun_path\.len\(\)\s*\{\s*return\s+Err', nsu))
+    out.append(f"def shape_pathChecked : Bool := {'true' if pc else 'false'}")
+    i_acc = osrv.find('libc::accept4(self.fd, sockaddr, sockaddr_len, SOCK_FLAGS)')
+    i_lin = osrv.find('make_socket_lingering(client_fd)?')
+    i_rcv = osrv.find('receiver.recv()?')
+    out.append(f"def shape_acceptLingerThenRecv : Bool := {'true' if 0 <= i_acc < i_lin < i_rcv else 'false'}")
+    ac = bool(re.search(r'pub fn accept\(\s*self,', unix))
+    out.append(f"def shape_acceptConsumesServer : Bool := {'true' if ac else 'false'}")
+    out.append("")
     # Router::run (C07/C17): which statement ends the loop on Shutdown, and how a closed wake-up is handled
     _, _, run = find_fn(router, 'run')
     out.append(f"def routerRunArms : Nat := {len(re.findall(r'IpcSelectionResult::', run))}")
